@@ -206,7 +206,7 @@ func verifC19_SyncPrefix() {
 func verifC19_SyncKey() {
 	const key = "/k"
 	keys := []string{"/k", "/k2", "/x"}
-	vals := []string{"v1", "v2"}
+	vals := []string{"v1", ""} // the empty string is a value like any other (absent is "<absent>")
 	vStoreKV, vStoreRev, vRevision = map[string]string{}, map[string]int64{}, 1
 	vWatchCh = make(chan clientv3.WatchResponse, 8)
 	vTickCh = make(chan time.Time, 8)
@@ -216,9 +216,10 @@ func verifC19_SyncKey() {
 	ch, _ := s.Sync(key)
 	verifQuiesce()
 
-	// history of the watched key: "" = absent
+	// history of the watched key
+	const absent = "<absent>"
 	var history [8]string
-	history[0] = ""
+	history[0] = absent
 	nh := 1
 	changes := 0
 	writes := verifBound("writes")
@@ -240,7 +241,7 @@ func verifC19_SyncKey() {
 		if had != has || before != after {
 			changes++
 		}
-		cur := ""
+		cur := absent
 		if has {
 			cur = after
 		}
@@ -270,9 +271,12 @@ func verifC19_SyncKey() {
 		select {
 		case v := <-ch:
 			if v == nil {
-				got[ng] = ""
+				got[ng] = absent
 			} else {
 				got[ng] = *v
+				if *v == "" {
+					verifCover("empty-value-delivered")
+				}
 			}
 			ng++
 			continue
@@ -299,7 +303,7 @@ func verifC19_SyncKey() {
 	}
 	final := history[nh-1]
 	if ng == 0 {
-		verifAssert(final == "", "converges-to-the-final-content")
+		verifAssert(final == absent, "converges-to-the-final-content")
 	} else {
 		verifAssert(got[ng-1] == final, "converges-to-the-final-content")
 		verifCover("delivered")
